@@ -126,6 +126,10 @@ func buildImage(ref, class string, variant int) *PkgImage {
 			img.Files["components/"+c+"/manifest.yaml"] = []byte(manifestYAML(img.Name+"-"+c, false, "", false))
 			img.Files["components/"+c+"/cm.yaml.gotmpl"] = []byte(cmYAML(pn+"-"+c, "alpha", c, 0) + "---\n" + depYAML(pn+"-"+c+"-dep", "bravo"))
 		}
+		// a sibling whose directory name merely starts with the name of another component is a component of
+		// its own (never selected by the generated packages): nothing of it belongs to "backend"
+		img.Files["components/backend-api/manifest.yaml"] = []byte(manifestYAML(img.Name+"-backend-api", false, "", false))
+		img.Files["components/backend-api/cm.yaml.gotmpl"] = []byte(cmYAML(pn+"-backend-api", "alpha", "backend-api", 0))
 	case "bad-condition-map":
 		img.Files["manifest.yaml"] = []byte(manifestYAML(img.Name, false, "", false))
 		img.Files["cm.yaml"] = []byte("apiVersion: v1\nkind: ConfigMap\nmetadata:\n  name: cm-map\n  namespace: ns1\n  annotations:\n    package-operator.run/phase: alpha\n    package-operator.run/condition-map: \"no arrow here\"\ndata:\n  k: v\n")
